@@ -118,6 +118,40 @@ fn c18_symmetric_hash_pairs() {
     std::mem::forget((a, b));
 }
 
+/// NULL, empty and one-element String / Bytes payloads: equal exactly when presence and content agree, and then they hash equally
+fn heap_value(sel: u8, b: u8) -> Value {
+    match sel {
+        0 => Value::String(None),
+        1 => Value::String(Some(Box::new(String::new()))),
+        2 => Value::String(Some(Box::new(String::from(b as char)))),
+        3 => Value::Bytes(None),
+        4 => Value::Bytes(Some(Box::new(Vec::new()))),
+        _ => Value::Bytes(Some(Box::new(vec![b]))),
+    }
+}
+
+#[kani::proof]
+#[kani::unwind(26)]
+fn c18_string_bytes_pairs() {
+    let s1: u8 = kani::any();
+    let s2: u8 = kani::any();
+    let b1: u8 = kani::any();
+    let b2: u8 = kani::any();
+    kani::assume(s1 < 6 && s2 < 6 && b1 < 0x80 && b2 < 0x80);
+    let a = heap_value(s1, b1);
+    let b = heap_value(s2, b2);
+    let ab = a == b;
+    assert!(ab == (b == a));
+    let expect = s1 == s2 && ((s1 != 2 && s1 != 5) || b1 == b2);
+    assert!(ab == expect);
+    if ab {
+        assert!(Rec::of(&a).same(&Rec::of(&b)));
+    }
+    kani::cover!(s1 == 0 && s2 == 1, "NULL vs empty string reachable");
+    kani::cover!(ab && s1 == 2, "equal one-character strings reachable");
+    std::mem::forget((a, b));
+}
+
 #[kani::proof]
 fn c18_float_payloads() {
     // the documented float semantics: every NaN equals every NaN, +0 equals -0, otherwise bitwise/ordinary equality
